@@ -504,7 +504,7 @@ func stripPointersAndOAIGen(opts *FlattenOpts) error {
 
 	// iterate as pointer or OAIGen resolution may introduce inline schemas or pointers
 	for hasIntroducedPointerOrInline {
-		if !opts.Minimal {
+		if !opts.Minimal && !opts.Expand {
 			opts.Spec.reload() // re-analyze
 			if err := nameInlinedSchemas(opts); err != nil {
 				return err
